@@ -868,6 +868,65 @@ Qed.
 Lemma b32_spec_nonempty : forall l, l <> [] -> b32_spec l <> [].
 Proof. intros [|a [|b [|c [|d [|e r]]]]] H; try contradiction; cbn [b32_spec]; discriminate. Qed.
 
+(* ---------------------------------------------------------------- the object the decoder returns *)
+
+Lemma b32d_region_shape : forall s rv off r s' rv',
+  b32d_region dtab tsize (s, rv) off r = Ok (s', rv') -> exists X, rv' = rv ++ data_create X.
+Proof.
+  intros s rv off r s' rv' H. unfold b32d_region in H.
+  destruct (iter (Z.to_nat (Zlength r)) 0 (b32d_body dtab tsize (howmany (Zlength r) 8 * 5) r) (s, (0, [])))
+    as [[[[x c] p] [n out]]| |]; cbn [bind] in H; try discriminate.
+  cbv zeta in H. destruct (howmany (Zlength r) 8 * 5 <? u64 n); [discriminate|]. injection H as _ Hrv. subst rv'. eexists. reflexivity.
+Qed.
+
+Lemma from_base32_nonempty : forall d t, from_base32_with_table dtab tsize d = Ok t -> nonempty_regions t.
+Proof.
+  intros d t H. unfold from_base32_with_table in H.
+  destruct (apply_regions (b32d_region dtab tsize) d 0 (0, 0, 0, [])) as [[s rv]| |] eqn:E; cbn [bind] in H; try discriminate.
+  injection H as Ht. subst t. eapply (apply_regions_nonempty (b32d_region dtab tsize) b32d_region_shape); [|exact E]. constructor.
+Qed.
+
+Lemma d32_step_len : forall c x count pad acc x' count' pad' acc',
+  d32_step c ((x, count, pad), acc) = Ok ((x', count', pad'), acc') ->
+  8 * Zlength acc' + 5 * (count' mod 8) <= 8 * Zlength acc + 5 * (count mod 8) + 5.
+Proof.
+  intros c x count pad acc x' count' pad' acc' H. unfold d32_step in H.
+  destruct (is_ws c); [inversion H; subst x' count' pad' acc'; lia|].
+  destruct (tsize <=? c); [discriminate|]. destruct (rd dtab c) as [v|]; [|discriminate].
+  destruct (v =? -1); [discriminate|]. cbv zeta in H.
+  assert (Hm : u64 (count + 1) mod 8 = (count + 1) mod 8) by (unfold u64; lia).
+  destruct (v =? -2); rewrite land7, Hm in H;
+    (destruct (Z.eqb_spec ((count + 1) mod 8) 0) as [E|E];
+     [ inversion H; subst x' count' pad' acc';
+       match goal with |- context [skipn ?k ?l] => pose proof (skipn_len_le k l) as Hk end;
+       unfold out5 in *; rewrite !Zlength_cons in Hk; rewrite Hm; lia
+     | inversion H; subst x' count' pad' acc'; rewrite Hm; lia ]).
+Qed.
+
+Lemma d32_fold_len : forall l i x count pad acc x' count' pad' acc',
+  foldi (fun _ => d32_step) i l ((x, count, pad), acc) = Ok ((x', count', pad'), acc') ->
+  8 * Zlength acc' + 5 * (count' mod 8) <= 8 * Zlength acc + 5 * (count mod 8) + 5 * Zlength l.
+Proof.
+  induction l as [|c l IH]; intros i x count pad acc x' count' pad' acc' H; cbn [foldi] in H.
+  - inversion H; subst x' count' pad' acc'. rewrite Zlength_nil. lia.
+  - destruct (d32_step c (x, count, pad, acc)) as [[[[x1 c1] p1] a1]| |] eqn:E; cbn [bind] in H; try discriminate.
+    apply d32_step_len in E. apply IH in H. rewrite Zlength_cons. lia.
+Qed.
+
+Lemma dec32_flat_len : forall l V, dec32_flat l = Ok V -> Zlength V <= Zlength l.
+Proof.
+  intros l V H. unfold dec32_flat in H.
+  destruct (foldi (fun _ : Z => d32_step) 0 l (0, 0, 0, [])) as [[[[x c] p] a]| |] eqn:E; try discriminate.
+  injection H as HV. subst V. apply d32_fold_len in E. rewrite Zlength_nil in E. rewrite Zlength_rev. pose proof (Zlength_nonneg l). lia.
+Qed.
+
+Lemma dec32_flat_no_oob : forall l site, dec32_flat l <> OOB site.
+Proof.
+  intros l site H. unfold dec32_flat in H.
+  destruct (foldi (fun _ : Z => d32_step) 0 l (0, 0, 0, [])) as [[? ?]| |] eqn:F; try discriminate.
+  injection H as Hs. subst site. eapply (foldi_no_oob d32_step d32_step_no_oob); eauto.
+Qed.
+
 End B32.
 
 (* ------------------------------------------------------------------------------------------------ the two generated table pairs *)
@@ -984,3 +1043,91 @@ Definition base32_decode_total :=
   base32_decode_total_generic _ _ _ F_BASE32 tables32_ok transform_none_b32 transform_b32_none.
 Definition base32hex_decode_total :=
   base32_decode_total_generic _ _ _ F_BASE32HEX tables32hex_ok transform_none_b32hex transform_b32hex_none.
+
+(* ------------------------------------------------------------------------------------------------ Base -> Base (decode, then encode the decoder's object) *)
+
+Lemma dec64_flat_no_oob : forall l site, dec64_flat l <> OOB site.
+Proof.
+  intros l site H. unfold dec64_flat in H.
+  destruct (foldi (fun _ : Z => d64_step) 0 l (0, 0, 0, [])) as [[? ?]| |] eqn:F; try discriminate.
+  injection H as Hs. subst site. eapply (foldi_no_oob d64_step d64_step_no_oob); eauto.
+Qed.
+
+Lemma recode_generic (dec enc : data -> res data) (decflat : list Z -> res (list Z)) (encspec : list Z -> list Z) (fi fo : Z) :
+  (forall d, wf_data d -> flat_res (dec d) = decflat (flat d)) ->
+  (forall d t, dec d = Ok t -> nonempty_regions t) ->
+  (forall l V, decflat l = Ok V -> Zlength V <= Zlength l) ->
+  (forall l site, decflat l <> OOB site) ->
+  (forall t, nonempty_regions t -> dsize t < 2 ^ 60 -> enc t = Ok (data_create (encspec (flat t)))) ->
+  (forall d, transform d fi fo = if dsize d =? 0 then Ok d else (do t <- dec d; enc t)) ->
+  forall d, wf_data d ->
+    flat_res (transform d fi fo) =
+      (if dsize d =? 0 then Ok (flat d)
+       else match decflat (flat d) with Ok V => Ok (encspec V) | Null => Null | OOB s => OOB s end) /\
+    (forall site, transform d fi fo <> OOB site).
+Proof.
+  intros Hdec Hne Hlen Hno Henc Htr d Hwf. rewrite Htr. destruct (dsize d =? 0); [split; [reflexivity|discriminate]|].
+  assert (HF := Hdec d Hwf). destruct Hwf as (_ & _ & Hsz).
+  destruct (dec d) as [t| |] eqn:Ed; cbn [flat_res bind] in *.
+  - rewrite <- HF. assert (Hl := Hlen _ _ (eq_sym HF)).
+    rewrite (Henc t (Hne d t Ed) ltac:(unfold dsize in *; lia)). cbn [flat_res]. rewrite flat_create.
+    split; [reflexivity|discriminate].
+  - rewrite <- HF. split; [reflexivity|discriminate].
+  - exfalso. eapply Hno. symmetry. exact HF.
+Qed.
+
+Definition base_dec (f : Z) : list Z -> res (list Z) :=
+  if f =? 5 then dec32_flat base32_decode_table base32_decode_table_size
+  else if f =? 6 then dec32_flat base32hex_decode_table base32hex_decode_table_size
+  else dec64_flat.
+Definition base_enc (f : Z) : list Z -> list Z :=
+  if f =? 5 then b32_spec base32_encode_table else if f =? 6 then b32_spec base32hex_encode_table else b64_spec.
+
+(* every ordered pair of Base32 / Base32Hex / Base64 (9 pairs): arbitrary input, arbitrary split: the result is
+   encode(decode(concatenation)), NULL exactly when the decoder's fold rejects, and the OOB outcome is unreachable *)
+Theorem base_recode_all : forall fi fo, (fi = 5 \/ fi = 6 \/ fi = 7) -> (fo = 5 \/ fo = 6 \/ fo = 7) ->
+  forall d, wf_data d ->
+    flat_res (transform d fi fo) =
+      (if dsize d =? 0 then Ok (flat d)
+       else match base_dec fi (flat d) with Ok V => Ok (base_enc fo V) | Null => Null | OOB s => OOB s end) /\
+    (forall site, transform d fi fo <> OOB site).
+Proof.
+  destruct tables32_ok as (A1 & A2 & A3 & A4). destruct tables32hex_ok as (B1 & B2 & B3 & B4).
+  assert (D64 : forall d, wf_data d -> flat_res (from_base64 d) = dec64_flat (flat d))
+    by (intros d (_ & Hb & Hs); apply from_base64_flat; [exact Hb|apply wf_regions_small, Hs]).
+  assert (D32 : forall d, wf_data d -> flat_res (from_base32_with_table base32_decode_table base32_decode_table_size d) =
+                                       dec32_flat base32_decode_table base32_decode_table_size (flat d))
+    by (intros d (_ & Hb & Hs); eapply (from_base32_flat base32_encode_table); eauto using wf_regions_small).
+  assert (D32H : forall d, wf_data d -> flat_res (from_base32_with_table base32hex_decode_table base32hex_decode_table_size d) =
+                                        dec32_flat base32hex_decode_table base32hex_decode_table_size (flat d))
+    by (intros d (_ & Hb & Hs); eapply (from_base32_flat base32hex_encode_table); eauto using wf_regions_small).
+  assert (E64 : forall t, nonempty_regions t -> dsize t < 2 ^ 60 -> to_base64 t = Ok (data_create (b64_spec (flat t))))
+    by (intros; apply to_base64_flat; [assumption|lia]).
+  assert (E32 : forall t, nonempty_regions t -> dsize t < 2 ^ 60 ->
+                  to_base32_with_table base32_encode_table t = Ok (data_create (b32_spec base32_encode_table (flat t))))
+    by (intros; eapply (to_base32_flat base32_encode_table base32_decode_table); eauto).
+  assert (E32H : forall t, nonempty_regions t -> dsize t < 2 ^ 60 ->
+                  to_base32_with_table base32hex_encode_table t = Ok (data_create (b32_spec base32hex_encode_table (flat t))))
+    by (intros; eapply (to_base32_flat base32hex_encode_table base32hex_decode_table); eauto).
+  assert (N32 : forall d t, from_base32_with_table base32_decode_table base32_decode_table_size d = Ok t -> nonempty_regions t)
+    by (intros d t; first [eapply (from_base32_nonempty base32_encode_table base32_decode_table) | eapply from_base32_nonempty]; eauto).
+  assert (N32H : forall d t, from_base32_with_table base32hex_decode_table base32hex_decode_table_size d = Ok t -> nonempty_regions t)
+    by (intros d t; first [eapply (from_base32_nonempty base32hex_encode_table base32hex_decode_table) | eapply from_base32_nonempty]; eauto).
+  assert (L32 : forall l V, dec32_flat base32_decode_table base32_decode_table_size l = Ok V -> Zlength V <= Zlength l)
+    by (intros l V; first [eapply (dec32_flat_len base32_encode_table base32_decode_table) | eapply dec32_flat_len]; eauto).
+  assert (L32H : forall l V, dec32_flat base32hex_decode_table base32hex_decode_table_size l = Ok V -> Zlength V <= Zlength l)
+    by (intros l V; first [eapply (dec32_flat_len base32hex_encode_table base32hex_decode_table) | eapply dec32_flat_len]; eauto).
+  assert (O32 : forall l site, dec32_flat base32_decode_table base32_decode_table_size l <> OOB site)
+    by (intros l site; first [eapply (dec32_flat_no_oob base32_encode_table base32_decode_table) | eapply dec32_flat_no_oob]; eauto).
+  assert (O32H : forall l site, dec32_flat base32hex_decode_table base32hex_decode_table_size l <> OOB site)
+    by (intros l site; first [eapply (dec32_flat_no_oob base32hex_encode_table base32hex_decode_table) | eapply dec32_flat_no_oob]; eauto).
+  intros fi fo [ -> | [ -> | -> ] ] [ -> | [ -> | -> ] ]; unfold base_dec, base_enc;
+    repeat match goal with |- context [?a =? ?b] => let v := eval vm_compute in (a =? b) in change (a =? b) with v end; cbv iota;
+    (eapply recode_generic;
+     [ first [exact D64|exact D32|exact D32H]
+     | first [exact from_base64_nonempty | exact N32 | exact N32H]
+     | first [exact dec64_flat_len | exact L32 | exact L32H]
+     | first [exact dec64_flat_no_oob | exact O32 | exact O32H]
+     | first [exact E64|exact E32|exact E32H]
+     | intros d; reflexivity ]).
+Qed.
